@@ -357,10 +357,15 @@ impl VariableAssignment {
         if let Some(last_value) = self.values.last_mut() {
             return last_value.mutate_last_token();
         }
-        self.variables
+        let variable = self
+            .variables
             .last_mut()
-            .expect("local assign must have at least one variable")
-            .mutate_or_insert_token()
+            .expect("local assign must have at least one variable");
+        // a type annotation is written after the name of the variable
+        if variable.has_type() {
+            return variable.mutate_type().unwrap().mutate_last_token();
+        }
+        variable.mutate_or_insert_token()
     }
 
     super::impl_token_fns!(iter = [variables, tokens]);
